@@ -70,14 +70,39 @@ CLAIMS = {
         text="Exploration. Closed meshes of genus 0-2, open discs and multi-component meshes (<= 600 faces in the quick tier): chart decomposition assigns every face pointer to exactly one chart, each chart is a connected edge-manifold disc within the requested limits; Floater97 over circle / p-norm / square boundaries with uniform, inverse-chord-length and shape-preserving weights puts boundary vertices where prescribed, interior vertices at the weighted mean of their neighbours, flips no triangle and preserves total area; the automatic atlas maps every face into [0,1]^2 with disjoint chart boxes; MapFn returns the same barycentric point of the corresponding face.",
         note="Trusted: harness topology and barycentric arithmetic. The two defects this check found (stretch minimisation with all-boundary triangles, atlas cells smaller than the border) are repaired in /repo; their input classes are generated again.",
         design="3/C18"),
+    "C03": dict(
+        technique="property-based testing (rapid): random expression trees over every solid constructor/combinator family x aimed probe points; invariant (reported box) + differential against the underlying definition evaluated from the parts (closed forms, wrapped library parts at bit-identical points, brute force for meshes), with extreme-point pattern searches",
+        text="Exploration. Random expression trees (depth <= 4, 2D and 3D mixed through Profile/Revolve/CrossSection/Slice) over 46 families: primitives in arbitrary orientation with aspect ratios to 1e3; Joined (+Optimize, SolidMux) / Intersected (incl. disjoint) / Subtracted / StackSolids / StackedSolid; SmoothJoin / V2; SDFToSolid (zero, positive, admissible negative outsets; primitive, transformed and mesh SDFs); TransformSolid and helpers with every transform kind incl. negative per-axis scales and reflections; Force/Cache/CheckedFuncSolid; collider solids (plain, inset, outset, hollow; primitive, transformed, mesh colliders); MetaballSolid (bare, transformed, per-axis scaled, SDF metaballs; four falloffs); convex polytopes incl. degenerate vertices; bitmaps; every toolbox part of the statement. Every node of every tree is checked: bounds finite with min <= max (construction panics count), no probe point more than 1e-12 of the scale outside a face is contained (shells 1e-12..0.5 of the scale on every face, corners, far points, support points of the primitives, end points of axis-wise extreme-point searches on Contains), and wherever the underlying definition - evaluated by the harness from the parts without the box - puts a point inside by a margin, the point is inside the box and reported contained. 64 k trees per quick run, 1.4 M per thorough run.",
+        note="Trusted: closed-form primitive distances and support points in harness/gen and harness/c03, the harness's L1/line/teardrop/conic formulas, kit brute-force mesh distance and winding number; wrapped library parts (transform inverses, SDF/metaball fields, gear profile, height-map interpolation) are used as parts of the definition, evaluated at points bit-identical to the wrapper's. 'Inside by a margin' is a closed-form distance > 1e-9..1e-10 of the size where available, otherwise agreement at the point and at +-margin on every axis. Leaks smaller than 1e-12 of the scale are out of resolution by design (at 1 ulp even Sphere contains points outside its box from rounding of Center-Radius). Negative uniform Scale, Ramp axes outside the wrapped box, gears off the origin axis, unbounded/empty polytopes are not generated (documented or caller-respected preconditions). RevolveSolid is checked against its inner membership test (profile at (rho, t)). The RevolveSolid zero-height-profile panic this check found is repaired (8de599b).",
+        design="3/C03 and 7.5"),
+    "C12": dict(
+        technique="metamorphic property-based testing (rapid): the same solid meshed / rasterised under a drawn list of configurations and compared bit for bit with a single-threaded unfiltered reference; harness-evaluated sufficient precondition for coarse-to-fine",
+        text="Exploration. CSG trees, trilinear fields, lattice solids and lattice-aligned box arrangements, 2D and 3D. MarchingCubes / Squares (plain, Search, Interior, Filter, SearchFilter) at GOMAXPROCS 1-16 x conservative filters (always-true, independent exact 'boundary meets box', dilated, exact OR random acceptances) give the identical canonical face multiset, and so does a repetition. MarchingCubesC2F / MarchingSquaresC2F equal the plain search mesh whenever every sign-changing fine cell has a sign-changing coarse lattice edge within the documented dilation, decided by the harness on the observed lattices (a satellite class sits at the edge of the dilation). DualContouring.Mesh / MeshInterior are identical across MaxGos {0,1,2,7} x BufferSize (below the minimum, 4-16 rows, ragged) x GOMAXPROCS for all options including Repair. RasterizeSolidFilter with conservative filters, RasterizeColliderSolid and RasterizeCollider are pixel-identical to the unfiltered RasterizeSolid over scale, subsamples, line width and explicit bounds.",
+        note="Trusted: the harness's conservative box predicates (analytic primitive distances, exact lattice and box comparisons) and its exact-float canonicalisation. Goroutine interleavings are varied only through worker counts and repetition - the harness does not own the scheduler (C13 adds the race detector). C2F is decided only where the sufficient precondition holds (about 1% skipped). In the collider raster modes a differing pixel is excused when one of its sample points lies within 1e-9 pixel of the outline (membership there is the sign of a rounding error; 1 case in 12000). The Repair run-to-run non-determinism this check found is repaired (968663e).",
+        design="3/C12 and 7.5"),
+    "C13": dict(
+        technique="property-based testing (rapid) of generated concurrent query histories under the Go race detector, each compared with a sequential run of the same history; internally parallel routines against their single-worker result or reference models",
+        text="Exploration. Meshes from library constructors, marching-cubes lattices and triangle soups (2D and 3D) in five index states (fresh, direct, warm, edited, copy) are queried by 2-16 goroutines at GOMAXPROCS 1-8 with per-goroutine lists (Find / Neighbors / VertexSlice / Iterate / SingularVertices and friends; the first queries build the lazy vertex index), likewise colliders, SDFs, solids, hierarchies, UV lookups and render objects derived from one mesh: no race report, every answer equals the sequential run. MarchingCubes / Squares variants, dual contouring (MaxGos / BufferSize, Clip, Repair, interior points), the rasteriser, ray caster / recursive tracer / bidirectional tracer (also 2-3 goroutines sharing one renderer value), KMeans.Iterate / Assign, HeightMap.AddSpheresSDF, the memoising caches and the OBJ builders at several GOMAXPROCS values: no race report, results equal the single-worker result or a reference step / invariant.",
+        note="Trusted: the Go race detector (happens-before; executed paths only). The harness does not own the scheduler: schedules are varied by repetition and worker counts, not enumerated, so an interleaving-specific failure on an unexecuted path is out of reach. Renderers always run NumCPU workers; random renderers are held to invariants only. Meshes with zero-length faces get no SDF / normal queries (undefined distances). Regression replays cover the repaired HeightMap race (7c0ada2) and the repaired repair-order non-determinism (968663e).",
+        design="3/C13 and 7.5"),
+    "C19": dict(
+        technique="property-based testing (rapid) with a black-box statistical/numerical oracle: discontinuity-aware Gauss-Legendre cubature of the reported density, chi-square (Wilson-Hilferty tail, effect-size floor) and exact binomial bounds of sampler histograms against it, closed-form Snell/Schlick reference, analytic light surfaces",
+        text="Exploration. For Lambert, Phong (alpha 0..1e4, +-diffuse, +-flux correction), HG, Refract (+-Fresnel, index 0.4..2.5), once-nested JoinedMaterial, PhongFocusPoint and SphereFocusPoint (active and both fallbacks), in source and destination mode (own method and generic fallback): the reported density integrates to 1 +- 1e-3; the sampler's histogram on ~100-200 lobe-aligned cells matches it (alarm at z > 6.5 and Pearson divergence above 1e-3); every sample has positive reported density; delta-lobe frequencies match the density's cap masses; BSDF*cos never exceeds 1 in the mean; the Fresnel split equals the cited Schlick formula on both the density and the sampler side, is monotone and tends to 1 at grazing incidence. Area lights (sphere, cylinder, mesh, joined) sample their own surface with outward normals, part and cell frequencies match emitted power, TotalEmission = sum(r+g+b)*area.",
+        note="Trusted: the reference lobe model (axes, kinds) is used only for frames, bin edges and the positions of equators and rims; expectations come from the library's own density. The quadrature error is an estimate calibrated by a self-test (harness/c19/selftest_test.go), not a proof. The statistical clauses cannot see divergences below 1e-3 (about 3% rms density error); on the unchanged tree the largest z observed is below 4 against the alarm at 6.5. Directions within 1e-9 of a lobe boundary, delta lobes closer than 5e-3 rad, and critical-angle cases are skipped and counted (< 2%). Focus points are source-mode only (the API has no dest variant).",
+        design="3/C19 and 7.5"),
+    "C20": dict(
+        technique="property-based testing (rapid) with a recording Object/Material oracle (per-pixel mean of exactly the recorded samples), closed-form radiance, independent pinhole/ray-primitive references, and child processes pinned to k CPUs for worker counts",
+        text="Exploration. A recording scene identifies each primary ray's pixel with an independent pinhole model and hands out deterministic per-sample radiances; after Render, RenderVariance and RayVariance of RecursiveRayTracer and BidirPathTracer every pixel equals the mean (or unbiased variance) of exactly its recorded samples, every pixel is sampled and written once, sample counts obey NumSamples/MinSamples and early stopping agrees with the documented rule (default, oversaturated, four custom Convergence functions); the same under GOMAXPROCS 1,2,5,16 and in child processes pinned to 1,2,4,5,6 CPUs (the renderers size their pool with NumCPU) with pixel counts below, equal to, a multiple of and above the worker count. Closed forms: emitter enclosures (sphere, box, inward mesh, furnace walls with Cutoff) under all three renderers (statistically for bidir), matte parallelogram and ball under one or two point lights with shadows, optionally inside similarity transforms, BVH or joined objects. Cameras: Caster/Uncaster inversion against the pinhole reference incl. 1-pixel axes, NewCameraAt frames, DirectionalCamera framing of boxes with aspect ratios to 100. Composite objects against brute-force nearest part; transformed spheres and boxes: hit point, ray parameter, inverse-transpose normal, bounds.",
+        note="Trusted: the pinhole reading (longer side spans the field of view, pixel centres on a (W-1)x(H-1) grid), the Lambert and PointLight formulas transcribed from docs and source. Pixels within 1e-6 of a silhouette, edge or terminator are skipped; the bidir ball term is statistical with a 2.5% effect floor. FocusPoints, ParticipatingMedium, non-Lambert materials and image I/O are outside the check. If taskset/CPU affinity is unavailable the worker-count clause counts a skip. The three defects this check found (DirectionalCamera accepting corners behind the camera, MatrixMultiply normals, NaN rays for 1-pixel axes) are repaired in /repo.",
+        design="3/C20 and 7.5"),
     "C09": dict(
         technique="model-based (stateful) property testing with rapid: operation histories against a reference face list / Go map",
-        text="Exploration. Random histories (<= 45 steps) of Add/Remove/AddMesh/Copy/DeepCopy/Translate/Scale/MapCoords (merging)/Transform/InvertNormals interleaved with queries that build the lazy vertex index at arbitrary moments, for 2D and 3D meshes, compared after every step with a brute-force model over the harness's own list of face pointers; histories over all six coordinate/edge map types of both packages against a Go map keyed by the same type, with hash-colliding and signed-zero keys; and outputs of the library's in-place editors (marching-cubes search, FlattenBase, EliminateEdges, decimation, dual contouring with repair) compared with a fresh mesh of their faces, also after further edits.",
+        text="Exploration. Random histories (<= 45 steps) of Add/Remove/AddMesh/Copy/DeepCopy/Translate/Scale/MapCoords (merging)/Transform/InvertNormals over up to four simultaneously live mesh objects (a copy and its source both stay alive and are re-checked after every step), interleaved with queries that build the lazy vertex index at arbitrary moments, for 2D and 3D meshes, compared after every step with a brute-force model over the harness's own list of face pointers; histories over all six coordinate/edge map types of both packages against a Go map keyed by the same type, with hash-colliding and signed-zero keys; and outputs of the library's in-place editors (marching-cubes search incl. lattice-aligned boxes bisected until vertices merge, FlattenBase, EliminateEdges, decimation, dual contouring with repair) compared with a fresh mesh of their faces, also after further edits.",
         note="Trusted: the reference model in harness/c09 (brute force over face lists), Go map semantics. Neighbors is only queried with non-degenerate faces (no agreed meaning otherwise). Hash collisions are produced black-box by floating-point absorption, which depends on the hash being a linear form in the coordinates.",
         design="3/C09"),
 }
 
-NOT_YET = "check not built yet in this session (planned: see DESIGN.md section 3); nothing is claimed for it"
+NOT_YET = "package exists (harness/c10) but is still being completed and triaged in this session; nothing is claimed for it yet"
 
 
 def main():
